@@ -12,6 +12,8 @@ mod aead;
 mod curve;
 mod hash;
 mod misc;
+#[cfg(feature = "nightly")]
+mod nightly;
 mod sign;
 mod so;
 mod stream;
@@ -37,6 +39,9 @@ fn property(id: &str) -> Option<(Registry, Option<Gen>)> {
         "C11" => (misc::C11, Some(misc::c11 as Gen)),
         "C12" => (misc::C12, Some(misc::c12 as Gen)),
         "C13" => (curve::C13, Some(curve::c13 as Gen)),
+        #[cfg(feature = "nightly")]
+        "C16" => (nightly::C16, Some(nightly::c16 as Gen)),
+        #[cfg(not(feature = "nightly"))]
         "C16" => (misc::C16, Some(misc::c16 as Gen)),
         "C17" => (aead::C17, Some(aead::c17 as Gen)),
         // properties about memory protection, build configurations and the
